@@ -104,3 +104,35 @@ func init() {
 		}
 	}
 }
+
+func init() {
+	// vh passdbg <pipeline.yaml> <pkg> <object>: prints the object after every compiler pass of every chain (debug aid)
+	subcommands["passdbg"] = func(args []string) {
+		last := ""
+		withSink(func(site string, a ...any) {
+			if site != "pass.after" && site != "chain.begin" {
+				return
+			}
+			var schemas ast.Schemas
+			label := site
+			if site == "pass.after" {
+				schemas = a[2].(ast.Schemas)
+				label = fmt.Sprintf("after #%d %T", a[0].(int), a[1])
+			} else {
+				schemas = a[0].(ast.Schemas)
+			}
+			obj, ok := schemas.LocateObject(args[1], args[2])
+			cur := "absent"
+			if ok {
+				cur = typeSummary(obj.Type, 0)
+			}
+			if cur != last {
+				fmt.Printf("== %s\n%s\n", label, cur)
+				last = cur
+			}
+		}, func() {
+			res := runPipelineFile(args[0], "")
+			fmt.Println("err:", res.Err, "panic:", res.Panic)
+		})
+	}
+}
